@@ -531,3 +531,82 @@ theorem gr_mod_t_and_divide_q_last_inplace_eq (r : RNSTool) (p : RnsPoly)
     show Except.ok _ = Except.ok _
     congr 1
     simp [List.map_map, Function.comp_def]
+
+theorem gr_mtd_shape {r : RNSTool} {p out : RnsPoly} (hq : ∀ i, i < r.baseQ.size → (r.baseQ.q i).WF) (hs : 1 ≤ r.baseQ.size) (ht : r.t.WF)
+    (hinvt : r.invQLastModT < 2^64) (hp : gr_Shape r p) (hw : ∀ x ∈ p.getD (r.baseQ.size - 1) #[], x < 2^64)
+    (h : r.modTAndDivideQLast p = .ok out) : gr_Shape r out := by
+  rw [gr_mtd_model r p hq hs ht hinvt hp hw] at h
+  cases hm : (List.range' 0 (r.baseQ.size - 1)).mapM (fun i => gr_mtdComp (r.baseQ.q i) (r.baseQ.q (r.baseQ.size - 1)).value (r.invQLastModQ.getD i default)
+          (gr_negList r.t r.invQLastModT (p.getD (r.baseQ.size - 1) #[]).toList) (p.getD (r.baseQ.size - 1) #[]).toList (p.getD i #[]).toList) with
+  | error e => rw [hm] at h; cases h
+  | ok outs =>
+    rw [hm, gr_ok_bind] at h
+    cases h
+    have hol : outs.length = r.baseQ.size - 1 := by rw [gr_mapM_length _ _ _ hm, List.length_range']
+    have hoc : ∀ c ∈ outs, c.length = r.n := by
+      intro c0 hc0
+      refine (gr_mapM_forall' _ (fun _ c => c.length = r.n) _ ?_ _ hm c0 hc0).elim (fun _ h => h.2)
+      intro i hi c hc
+      rw [List.mem_range'_1] at hi
+      unfold gr_mtdComp at hc
+      cases hd : (List.range' 0 (p.getD i #[]).toList.length).mapM (fun j => ckAdd ((p.getD i #[]).toList.getD j 0)
+          ((r.baseQ.q i).value * 2 - (p.getD (r.baseQ.size - 1) #[]).toList.getD j 0 % (r.baseQ.q i).value -
+            ((gr_negList r.t r.invQLastModT (p.getD (r.baseQ.size - 1) #[]).toList).map
+              (fun x => (x % (r.baseQ.q i).value * (r.baseQ.q (r.baseQ.size - 1)).value) % (r.baseQ.q i).value)).getD j 0)) with
+      | error e => rw [hd] at hc; cases hc
+      | ok d =>
+        rw [hd, gr_ok_bind] at hc; cases hc
+        rw [List.length_map, gr_mapM_length _ _ _ hd, List.length_range', Array.length_toList, hp.2 i (by omega)]
+    have key : ∀ i, ((outs.map List.toArray).toArray.push (p.getD (r.baseQ.size - 1) #[])).getD i #[]
+        = ((outs.map List.toArray) ++ [p.getD (r.baseQ.size - 1) #[]]).getD i #[] := by
+      intro i; simp [Array.getD_eq_getD_getElem?, List.getD_eq_getElem?_getD]
+    refine ⟨by simp [hol]; omega, ?_⟩
+    intro i hi
+    rw [key]
+    by_cases his : i < r.baseQ.size - 1
+    · rw [gr_getD_append_left _ _ _ _ (by rw [List.length_map, hol]; exact his), List.getD_eq_getElem?_getD, List.getElem?_map,
+        List.getElem?_eq_getElem (by omega)]
+      show (outs[i]).toArray.size = r.n
+      rw [List.size_toArray]
+      exact hoc _ (List.getElem_mem _)
+    · have : i = r.baseQ.size - 1 := by omega
+      subst this
+      rw [gr_getD_append_right _ _ _ _ (by rw [List.length_map, hol]), List.length_map, hol, Nat.sub_self]
+      exact hp.2 _ (by omega)
+
+/-- **END TO END (C10, BGV division, coefficient form)**: the function generated from the Rust source of `RNSTool::mod_t_and_divide_q_last_inplace`,
+    run on the flat buffer of a polynomial holding the canonical residues of integers `X j`, returns at position `i·n + j` the residue mod `q_i` of
+    y = (X − [X]_{q_L})/q_L − [−X·q_L⁻¹]_t, and y·q_L ≡ X (mod t). -/
+theorem gr_mod_t_and_divide_q_last_inplace_bgv (r : RNSTool) (p : RnsPoly) (X : Nat → Nat)
+    (hq : ∀ i, i < r.baseQ.size → (r.baseQ.q i).WF) (hs : 2 ≤ r.baseQ.size) (ht : r.t.WF)
+    (hinv : ∀ i, i < r.baseQ.size - 1 → WFOp (r.baseQ.q i) (r.invQLastModQ.getD i default) ∧
+        ((r.invQLastModQ.getD i default).operand * (r.baseQ.q (r.baseQ.size - 1)).value) % (r.baseQ.q i).value = 1)
+    (hinvt : (r.invQLastModT * (r.baseQ.q (r.baseQ.size - 1)).value) % r.t.value = 1) (hit : r.invQLastModT < r.t.value)
+    (hinvs : r.baseQ.size - 1 ≤ r.invQLastModQ.size)
+    (hsn : r.baseQ.size * r.n < 2^64) (hs64 : r.baseQ.size < 2^64) (hp : gr_Shape r p)
+    (hX : ∀ i j, i < r.baseQ.size → j < r.n → (p.getD i #[]).getD j 0 = X j % (r.baseQ.q i).value) :
+    ∃ out, GenR.mod_t_and_divide_q_last_inplace (flatP p) r.baseQ.size r.baseQ.base.toList r.n r.invQLastModQ.toList r.t r.invQLastModT = .ok out ∧
+      ∀ i j, i < r.baseQ.size - 1 → j < r.n →
+        let qL := (r.baseQ.q (r.baseQ.size - 1)).value
+        let y : Int := ((X j - X j % qL) / qL : Nat) - ((((r.t.value - (X j % qL) % r.t.value) % r.t.value) * r.invQLastModT) % r.t.value : Nat)
+        (out.getD (i * r.n + j) 0 : Int) = y % ((r.baseQ.q i).value : Int) ∧ (y * qL - X j) % (r.t.value : Int) = 0 := by
+  have ht61 := ht.lt
+  have hc : ∀ i j, i < r.baseQ.size → j < r.n → (p.getD i #[]).getD j 0 < (r.baseQ.q i).value := by
+    intro i j hi hj; rw [hX i j hi hj]; exact Nat.mod_lt _ (by have := (hq i hi).two_le; omega)
+  have hw : ∀ x ∈ p.getD (r.baseQ.size - 1) #[], x < 2^64 := by
+    apply mem_lt_of_getD
+    intro j hj
+    rw [hp.2 _ (by omega)] at hj
+    have := hc _ j (show r.baseQ.size - 1 < r.baseQ.size by omega) hj
+    have := (hq (r.baseQ.size - 1) (by omega)).lt
+    omega
+  obtain ⟨o, ho, hv⟩ := modTAndDivideQLast_spec hq hs ht (by omega) (fun i hi => (hinv i hi).1) (hp.2 _ (by omega))
+    (fun j hj => by have := hc _ j (show r.baseQ.size - 1 < r.baseQ.size by omega) hj; have := (hq (r.baseQ.size - 1) (by omega)).lt; omega)
+    (fun i j hi hj => by have := hc i j (by omega) hj; have := (hq i (by omega)).lt; omega)
+  have hsh := gr_mtd_shape hq (by omega) ht (by omega) hp hw ho
+  refine ⟨flatP o, ?_, ?_⟩
+  · rw [gr_mod_t_and_divide_q_last_inplace_eq r p (by omega) hq ht (by omega) hinvs hsn hs64 hp hw, ho]; rfl
+  · intro i j hi hj
+    rw [gr_flatP_getD hsh (by omega) hj, hv i j hi hj, hX _ j (by omega) hj, hX i j (by omega) hj]
+    have := modTDivLast_scalar (x := X j) ht.two_le (hq _ (by omega)).two_le (hq i (by omega)).two_le (hinv i hi).2 hinvt hit
+    exact ⟨this.1, this.2.1⟩
